@@ -20,6 +20,16 @@ CLAIMED = {
   ref="DESIGN.md §6 C08",
   note="Partial: the refinement proof covers TextureSurfaceIterator layouts; the volume iterator is modelled and compared against the implementation but its refinement is stated (C08_volume_partial_statement), not proved. The decode call inside read_surface is abstracted to 'consumes exactly the surface length' (C06). Trusted: Coq kernel; hand-written model of iter.rs/decoder.rs tied by differential execution; in-memory cursor semantics of Seek.",
   tech="Coq proof (simulation by induction over the operation list) + model-vs-implementation differential execution of operation sequences"),
+ "C06": dict(
+  text="Coq theorems about the I/O script of every decode entry (full / rect, pixel / block / bi-planar families, fast paths, empty rects), for every pixel-info shape with block dims 1..15, every surface size, rectangle, memory limit and reader state: a successful decode moves the reader by exactly the surface's encoded length (the C02 rule); a decode refused with a non-I/O error (memory limit, rect out of bounds) leaves the reader untouched because every allocation precedes the first reader effect; a run is Ok only if every read was served in full. The scripts are tied to src/decode/{mod,decoder,read_write}.rs by differential execution: for 73 formats x sizes x rects x colours x memory limits x reader behaviours x faults the observed verdict, position, coalesced skip/read amounts and heap request sizes equal the model's.",
+  ref="DESIGN.md §6 C06",
+  note="Trusted: Coq kernel; hand-written script model tied by differential execution (not proved); per-format geometry and fast-path table regenerated from /repo on every run (gen/GenFormats.v); std::io contracts of read_exact / io::copy / Seek; pixel values are outside this layer. 'Whatever the chunking' is established by running each case under four reader chunking styles, not by proof.",
+  tech="Coq proof (effect-script model, induction over scripts, lia/nia) + model-vs-implementation differential execution with recording reader and counting allocator"),
+ "C07": dict(
+  text="Coq theorems about the same decode scripts: along every run the bytes allocated never exceed the configured limit (budget accounting invariant); a request is refused with the memory-limit error iff its need exceeds the limit; closed form of the need per family (one line buffer of at most max(64 KiB, one line); one row for pixel rects; plane 1 of the rows read + a line buffer for bi-planar formats; nothing on fast paths); with the default limit every row of the implementation's current 73-format table decodes at 4096x4096 (finite, by computation on the regenerated table). Tied to the code by a counting global allocator: ordered request sizes >= 128 B, verdicts and peak live bytes for sizes up to 4096x4096 and 65536x1 / 1x65536 at every allocation-boundary limit.",
+  ref="DESIGN.md §6 C07",
+  note="Partial in one respect: the claim that ONLY budgeted sites allocate is checked on the implementation (peak live bytes <= limit + 4 KiB, < 4 KiB of small requests, request list equal to the model's), not proved; astc-decode / std internals are runtime. Trusted: Coq kernel; script model tied by differential execution; allocator rounding is the runtime's.",
+  tech="Coq proof (budget invariant over effect scripts; finite table theorem by vm_compute) + counting-allocator differential execution"),
 }
 WIP = "check not built yet (work in progress, see DESIGN.md §10 staging); proof applies and is planned"
 
